@@ -37,6 +37,7 @@ type ProgOpts struct {
 	Wrap    bool // C12: wrap blocks in 1..3 levels of embedded sub-process
 	Flatten bool // C12: consume the same draws but splice the content in place (the inlined twin)
 	ActivityMultiFork bool // allow several true conditional flows leaving an activity (known-finding trigger)
+	Throws    bool // an intermediate throw event (without definition, or with a signal definition) may stand in front of an activity: a node a token just passes
 	StartFork bool // start events (of the process and of sub-processes) may have a second outgoing flow: an implicit fork right at the start event
 }
 
@@ -213,6 +214,25 @@ func (pg *progGen) blockInner(g *Graph, from string, cond *Cond, outPos int, dep
 	d := pg.defs
 	switch kind {
 	case "task":
+		if pg.opts.Throws && pg.d.N(5) == 4 {
+			th := g.addNode(&Node{ID: d.fresh("TH"), Kind: "throw"})
+			if pg.d.Bool() {
+				th.Events = []EventDef{{Kind: "signal", Ref: "sTH"}}
+				has := false
+				for _, sg := range d.Signals {
+					has = has || sg == "sTH"
+				}
+				if !has {
+					d.Signals = append(d.Signals, "sTH")
+				}
+			}
+			f := g.connect(d, from, th.ID, cond, outPos)
+			t := pg.newTask(g)
+			g.connect(d, th.ID, t.ID, nil, -1)
+			pg.tags["throw-event"] = true
+			pg.desc.WriteString(th.ID + ">" + t.ID + " ")
+			return t.ID, f.ID
+		}
 		t := pg.newTask(g)
 		f := g.connect(d, from, t.ID, cond, outPos)
 		pg.desc.WriteString(t.ID + " ")
